@@ -242,18 +242,21 @@ func runCaseByIndex(prop, tier string, seed uint64, idx int, keepDir string) *Ca
 	if !ok {
 		return &CaseResult{Prop: prop, Seed: seed, Index: idx, Status: "skipped", Err: "unknown property"}
 	}
-	sc := GenScenario(prop, seed, idx)
+	sc := finalScenario(prop, seed, idx)
 	res := runScenario(sc, sp.monitors(), keepDir)
 	res.Sample = scenarioSample(sc)
+	if sc.TillCollision {
+		if res.Cov == nil {
+			res.Cov = map[string]int64{}
+		}
+		res.Cov["cases_postponed_tillage_meets_the_next_one"]++
+	}
 	return res
 }
 
 func materializeForReplay(prop, tier string, seed uint64, idx int, dir string) {
 	if _, ok := simProps[prop]; ok {
-		sc := GenScenario(prop, seed, idx)
-		if prop == "C16" {
-			sc = c16Scenario(seed, idx)
-		}
+		sc := finalScenario(prop, seed, idx)
 		sc.Materialize(dir, filepath.Join(dir, "out"))
 		b, _ := json.MarshalIndent(sc, "", " ")
 		os.WriteFile(filepath.Join(dir, "scenario.json"), b, 0644)
